@@ -902,6 +902,11 @@ class FnItem:
             raise Undecided("%s::%s: rewrite sites changed: expected %r, found %r" % (self.rel, self.name, expected, hits))
         # signature: named return, drop pub(crate) noise is fine in verus
         sig = strip_attrs_and_docs(sig).strip()
+        for a, b in sp.get("sig_replace", []):
+            # type-level only (e.g. `Self::Closed` spelled out when a trait impl is verified as an inherent method)
+            if sig.count(a) != 1:
+                raise Undecided("%s::%s: signature text %r found %d times" % (self.rel, self.name, a, sig.count(a)))
+            sig = sig.replace(a, b)
         if sp.get("ret"):
             toks, match = _toks(sig)
             # find top-level `->`
